@@ -299,6 +299,7 @@ def run(tier, seed):
         + [f"bench:{n}" for n in BENCH]
     tasks = [(seed, i, k, tier) for i, k in enumerate(kinds)]
     rs = runner.pmap(run_case, tasks)
+    runner.stamp("bound", "run_case", tasks, rs)
     errors = [dict(idx=r["idx"], kind=r["kind"], error=r["error"]) for r in rs if r["error"]]
     shapes = collections.Counter(str(r["shape"]) for r in rs)
     return dict(suite="bound", tier=tier, seed=seed, scenarios=len(rs), evaluations=len(rs),
